@@ -8,15 +8,29 @@ from concurrent.futures import ThreadPoolExecutor
 V = os.path.dirname(os.path.dirname(os.path.abspath(__file__)))
 
 
+import queue
+_targets = queue.Queue()
+
+
 def one(kind, name, prop, patch, expect):
     d = tempfile.mkdtemp(prefix='vpmut_')
+    # the bounded native checks build under a file lock per cargo target directory: one directory per worker, or the workers
+    # would take turns (the first use of a directory builds the dependencies once)
+    target = _targets.get()
+    try:
+        return _one(kind, name, prop, patch, expect, d, target)
+    finally:
+        _targets.put(target)
+
+
+def _one(kind, name, prop, patch, expect, d, target):
     try:
         subprocess.run(['rsync', '-a', '--exclude', 'target', '--exclude', '.git', '/repo/', d + '/'], check=True)
         r = subprocess.run(['patch', '-p1', '-s', '-i', patch], cwd=d, capture_output=True, text=True)
         if r.returncode != 0:
             return kind, name, prop, 'patch-does-not-apply'
         q = subprocess.run([sys.executable, os.path.join(V, 'vp', 'check.py'), prop, '--no-evidence', '--tier', 'quick'],
-                           env=dict(os.environ, VP_REPO=d, VP_GEN=d + '_gen', VP_NO_SENSITIVITY='1'), capture_output=True, text=True)
+                           env=dict(os.environ, VP_REPO=d, VP_GEN=d + '_gen', VP_NO_SENSITIVITY='1', VP_NATIVE_TARGET=target), capture_output=True, text=True)
         if kind == 'mutant':
             return kind, name, prop, {0: 'SURVIVED', 1: 'killed', 2: 'undecided'}.get(q.returncode, 'rc%d' % q.returncode)
         ok = q.returncode in expect
@@ -57,6 +71,11 @@ def run(only=None, workers=4, quiet=False):
                 continue
             jobs.append(('harmless', name, p, os.path.join(V, 'harmless', name + '.diff'), ent.get('expect', [0, 2])))
     res = {}
+    base = os.environ.get('VP_NATIVE_TARGET') or os.path.join(V, 'build', 'native_target')
+    while not _targets.empty():
+        _targets.get()
+    for k in range(max(1, workers)):
+        _targets.put(base if k == 0 else '%s_s%d' % (base, k))
     with ThreadPoolExecutor(max_workers=max(1, workers)) as ex:
         for kind, name, p, verdict in ex.map(lambda j: one(*j), jobs):
             res['%s%s/%s' % ('harmless:' if kind == 'harmless' else '', name, p)] = verdict
